@@ -1,6 +1,7 @@
 //! One monitor per property.
 use crate::ev::{Ctx, PropMeta};
 
+pub mod c01;
 pub mod c15;
 
 pub struct Monitor {
@@ -10,5 +11,7 @@ pub struct Monitor {
 }
 
 pub fn all() -> Vec<Monitor> {
-    vec![Monitor { meta: &c15::META, run: c15::run, replay: c15::replay }]
+    vec![
+        Monitor { meta: &c01::META, run: c01::run, replay: c01::replay },
+        Monitor { meta: &c15::META, run: c15::run, replay: c15::replay }]
 }
